@@ -46,25 +46,36 @@ Proof.
     apply prog_eqb_eq in E2; subst; rewrite prog_eqb_refl in E; discriminate.
 Qed.
 
+Lemma nth_zf_eq {A} (l : list A) : forall i, 0 <= i -> nth_zf l i = nth_error l (Z.to_nat i).
+Proof.
+  induction l as [|x tl IH]; intros i Hi; cbn [nth_zf].
+  - destruct (Z.to_nat i); reflexivity.
+  - destruct (Z.eqb_spec i 0) as [->|N]; [reflexivity|].
+    rewrite IH by lia. replace (Z.to_nat i) with (S (Z.to_nat (i - 1))) by lia. reflexivity.
+Qed.
+
+Lemma nth_z_eq {A} (l : list A) i : nth_z l i = if i <? 0 then None else nth_error l (Z.to_nat i).
+Proof. unfold nth_z. destruct (Z.ltb_spec i 0); [reflexivity | apply nth_zf_eq; lia]. Qed.
+
 Lemma nth_z_Some {A} (l : list A) i x : nth_z l i = Some x -> 0 <= i < len_z l.
 Proof.
-  unfold nth_z, len_z. destruct (i <? 0) eqn:E; [discriminate|]. intros H.
+  rewrite nth_z_eq; unfold len_z. destruct (i <? 0) eqn:E; [discriminate|]. intros H.
   assert (Hn : (Z.to_nat i < length l)%nat) by (apply nth_error_Some; congruence). lia.
 Qed.
 
 Lemma nth_z_In {A} (l : list A) i x : nth_z l i = Some x -> In x l.
-Proof. unfold nth_z. destruct (i <? 0); [discriminate|]. apply nth_error_In. Qed.
+Proof. rewrite nth_z_eq. destruct (i <? 0); [discriminate|]. apply nth_error_In. Qed.
 
 Lemma nth_z_app_mid {A} (pre : list A) x post : nth_z (pre ++ x :: post) (len_z pre) = Some x.
 Proof.
-  unfold nth_z, len_z. replace (Z.of_nat (length pre) <? 0) with false by lia.
+  rewrite nth_z_eq; unfold len_z. replace (Z.of_nat (length pre) <? 0) with false by lia.
   rewrite Nat2Z.id. rewrite nth_error_app2 by lia. rewrite Nat.sub_diag. reflexivity.
 Qed.
 
 Lemma nth_z_split {A} (l : list A) i x :
   nth_z l i = Some x -> exists pre post, l = pre ++ x :: post /\ len_z pre = i.
 Proof.
-  unfold nth_z, len_z. destruct (i <? 0) eqn:E; [discriminate|]. intros H.
+  rewrite nth_z_eq; unfold len_z. destruct (i <? 0) eqn:E; [discriminate|]. intros H.
   apply nth_error_split in H as (pre & post & -> & Hl). exists pre, post. split; [reflexivity|]. lia.
 Qed.
 
@@ -73,7 +84,7 @@ Lemma nth_z_app {A} (pre : list A) x post j y :
   (j < len_z pre /\ nth_z pre j = Some y) \/ (j = len_z pre /\ y = x) \/
   (len_z pre < j /\ nth_z post (j - len_z pre - 1) = Some y).
 Proof.
-  unfold nth_z, len_z. destruct (j <? 0) eqn:E; [discriminate|]. intros H.
+  rewrite !nth_z_eq; unfold len_z. destruct (j <? 0) eqn:E; [discriminate|]. intros H.
   destruct (Z_lt_ge_dec j (Z.of_nat (length pre))) as [L|L].
   - left. split; [lia|]. rewrite nth_error_app1 in H by lia. exact H.
   - right. rewrite nth_error_app2 in H by lia.
